@@ -411,6 +411,23 @@ class PGPSignature(Armorable, ParentRef, PGPObject):
         data, and then using the resulting hash in the signature algorithm.
         """
 
+        # every signature type is defined over one kind of subject (RFC 4880, 5.2.1 and 5.2.4); anything else
+        # would be hashed through whatever attributes it happens to share with the right kind
+        if self.type in {SignatureType.Generic_Cert, SignatureType.Persona_Cert, SignatureType.Casual_Cert,
+                         SignatureType.Positive_Cert, SignatureType.Attestation} and not isinstance(subject, PGPUID):
+            raise TypeError("a certification is made over a user id or user attribute of a key")
+
+        if self.type == SignatureType.CertRevocation \
+                and not (isinstance(subject, PGPUID) or (isinstance(subject, PGPKey) and subject.is_primary)):
+            raise TypeError("a certification revocation is made over a user id or over a primary key")
+
+        if self.type in {SignatureType.Subkey_Binding, SignatureType.PrimaryKey_Binding, SignatureType.DirectlyOnKey,
+                         SignatureType.KeyRevocation, SignatureType.SubkeyRevocation} and not isinstance(subject, PGPKey):
+            raise TypeError("a key signature is made over a key")
+
+        if self.type == SignatureType.SubkeyRevocation and subject.is_primary:
+            raise TypeError("a subkey revocation is made over a subkey")
+
         if self.type == SignatureType.BinaryDocument:
             """
             For binary document signatures (type 0x00), the document data is
